@@ -60,6 +60,15 @@ DESC = {
  "datastress": "multi-thread runtime, shorter than an ack deadline: publishers and consumers (ack / nack / extend, random batch sizes) on two subscriptions with a global logical clock: nothing lost, ack ids unique, re-delivery only after a nack, none after an ack, payloads intact (search only)",
  "grpcstress": "multi-thread runtime, real gRPC handlers: streams and blocked Pulls on a subscription that two DeleteSubscription calls delete at once, Get/Ack racing: all answered, streams end NOT_FOUND, exactly one delete OK (search only)",
  "nsstress": "multi-thread runtime: concurrent create / delete / get / list of topics and subscriptions over small name pools; no call left unanswered; per name creates - deletes in {0,1} = presence; listings = what exists; final Publish reaches every survivor with fresh ids (search only)",
+ "stream-flood": "99..130 StreamingPull streams open at once on ONE connection, then the Publish / Delete they are waiting for: everything is answered (a transport-level stream limit would make the 101st call wait for ever)",
+ "busy-lists": "ListSubscriptions / ListTopicSubscriptions / ListTopics while a Pull and a Get are on their way to listed subscriptions (swept over how far they have got): creation order, no duplicates",
+ "many-topics": "24 topics x 12 single-message Publish calls: topic ids and per-topic counters both pass 10 and 20; ids distinct, deliveries carry their own id",
+ "create-vs-delete-topic": "CreateSubscription racing the DeleteTopic of its topic (each client reads its result back at once): the name exists exactly if the create answered OK; only OK / ALREADY_EXISTS / NOT_FOUND",
+ "abandoned-delete-during-create": "a create polled once (attachment on its way) and, with nothing run in between, a delete of it abandoned while waiting for room in the saturated mailbox: the subscription exists, so it is attached and receives",
+ "registry-enum": "ALL sequences (depth 4, thorough 5) over create-as-push (two endpoints) / create-as-pull / delete of one subscription name and create / delete of its topic; push registry, subscription and listings read after each step",
+ "orphan-wait": "blocking Pulls on a subscription whose topic is gone and that still holds a lease: they wait for the nack / the expiry / their limit",
+ "control-shape": "every shape of a follow-up StreamingPull message: 0..2 ack ids x 0..2 modify ids x 0..2 seconds; unequal counts = INVALID_ARGUMENT, nothing applied",
+ "push-slow": "an endpoint that takes 11 s (real time) to accept on a subscription with a 60 s ack deadline: one POST, never again",
  "woken-dropped": "XH/XP: the unary handler woken, then polled k times with the mailbox pre-filled and dropped",
 }
 uses = {}
